@@ -255,6 +255,9 @@ fn run(rng: &mut Rng, _idx: u64, tier: Tier) -> CaseOut {
         ("model_check_formula_dirty", false, Box::new(|| mc::model_check_formula_dirty(s, g).map(|_| ()))),
         ("model_check_multiple_formulae", false, Box::new(|| mc::model_check_multiple_formulae(vec![s, s], g).map(|_| ()))),
         ("model_check_multiple_formulae_dirty", false, Box::new(|| mc::model_check_multiple_formulae_dirty(vec![s], g).map(|_| ()))),
+        // batches whose OTHER member is variable-free (fits every graph): the verdict for the batch is the verdict for `s`, in either position
+        ("model_check_multiple_formulae (mixed batch, s last)", false, Box::new(|| mc::model_check_multiple_formulae(vec!["True", s], g).map(|_| ()))),
+        ("model_check_multiple_formulae_dirty (mixed batch, s first)", false, Box::new(|| mc::model_check_multiple_formulae_dirty(vec![s, "(EF (~False))"], g).map(|_| ()))),
         ("model_check_formula_unsafe_ex", false, Box::new(|| mc::model_check_formula_unsafe_ex(s, g).map(|_| ()))),
         ("model_check_extended_formula", true, Box::new(|| mc::model_check_extended_formula(s, g, &ctx).map(|_| ()))),
         ("model_check_extended_formula_dirty", true, Box::new(|| mc::model_check_extended_formula_dirty(s, g, &ctx).map(|_| ()))),
